@@ -105,6 +105,35 @@ def rule_trace_distance_shape(ctx: Ctx) -> None:
                  func="fidelity", construct="fidelity: pure-state shortcut")
 
 
+    # Uhlmann branch: F = (Re Tr sqrt( sqrt(rho) sigma sqrt(rho) ))^2 — the square of the trace of the *second* square root
+    if pure_if:
+        arm2 = pure_if[0].body if negated else pure_if[0].orelse
+        defs_ = {}
+        for a_ in [x for st in arm2 for x in ast.walk(st) if isinstance(x, ast.Assign) and len(x.targets) == 1 and isinstance(x.targets[0], ast.Name)]:
+            defs_.setdefault(a_.targets[0].id, []).append(a_.value)
+        pows = [x for st in arm2 for x in ast.walk(st) if isinstance(x, ast.BinOp) and isinstance(x.op, ast.Pow)]
+        good = False
+        why = "no `(... trace ...) ** 2` found"
+        for pw in pows:
+            has_tr = any(isinstance(c, ast.Call) and call_attr(c) == "trace" for c in ast.walk(pw.left))
+            if not has_tr:
+                continue
+            if not (isinstance(pw.right, ast.Constant) and pw.right.value == 2):
+                why = f"the trace is raised to the power `{short(pw.right)}`, the Uhlmann fidelity is its square"
+                continue
+            tr_ = next(c for c in ast.walk(pw.left) if isinstance(c, ast.Call) and call_attr(c) == "trace")
+            arg = tr_.args[0] if tr_.args else None
+            srcs = defs_.get(arg.id, []) if isinstance(arg, ast.Name) else [arg]
+            if any(isinstance(v, ast.Call) and call_attr(v) in ("sqrtm_psd", "sqrtm") or (isinstance(v, ast.Call) and isinstance(v.func, ast.Name) and v.func.id in ("sqrtm_psd", "sqrtm")) for v in srcs):
+                good = True
+            else:
+                why = f"the trace is taken of `{short(arg)}`, which is not a matrix square root"
+        if good:
+            ctx.ok("dist.shape", m, pows[0], what="mixed branch: (Re Tr sqrt(sqrt(rho) sigma sqrt(rho)))^2")
+        else:
+            ctx.fail("dist.shape", m, arm2[0] if arm2 else fn, f"fidelity, both states mixed: {why}", func="fidelity", construct="fidelity: Uhlmann form")
+
+
 # --------------------------------------------------------------------------- C08 graph -> state construction
 
 
